@@ -135,7 +135,7 @@ def check(run):
     for st in ast.walk(fe.node):
         if (isinstance(st, ast.Assign) and isinstance(st.targets[0], ast.Tuple) and len(st.targets[0].elts) == 2
                 and isinstance(st.value, ast.Call) and ast.unparse(st.value.func).endswith("faces_to_edges")
-                and any(k.arg == "return_index" and getattr(k.value, "value", None) is True for k in st.value.keywords)):
+                and getattr(ix.call_arg(st.value, "return_index", "trimesh.geometry.faces_to_edges"), "value", None) is True):
             e_name, i_name = (x.id for x in st.targets[0].elts)
             stores = [a for a in ast.walk(fe.node) if isinstance(a, ast.Assign) and isinstance(a.targets[0], ast.Subscript)
                       and ast.unparse(a.targets[0].value) == "self._cache" and const_eval(a.targets[0].slice) == "edges_face"
@@ -172,7 +172,7 @@ def check(run):
         detail = f"edges from {sorted(ea)}, face index from {sorted(fa_)}"
         pairs_ok = set()
         for e_ in ea:
-            if e_.endswith("[0]") and "trimesh.geometry.faces_to_edges(" in e_ and "return_index=True" in e_:
+            if e_.endswith("[0]") and re.fullmatch(r"trimesh\.geometry\.faces_to_edges\([^()]*?(?:, True|, return_index=True)\)\[0\]", e_):
                 if e_[:-3] + "[1]" in fa_:
                     pairs_ok.add(e_)
             elif e_.endswith(".edges_sorted") and e_[:-len(".edges_sorted")] + ".edges_face" in fa_:
@@ -198,7 +198,7 @@ def check(run):
         raise AnalysisError("anchor vanished: `return watertight, winding` in graph.is_watertight")
     wt_txt = pw.canon(rets[0].value.elts[0], rets[0])
     wd_txt = pw.canon(rets[0].value.elts[1], rets[0])
-    G = r"trimesh\.grouping\.group_rows\((?:P_edges_sorted|PHI_edges_sorted|numpy\.sort\(P_edges, axis=1\)), require_count=2\)"
+    G = r"trimesh\.grouping\.group_rows\((?:P_edges_sorted|PHI_edges_sorted|numpy\.sort\(P_edges, axis=1\))(?:, require_count=2|, 2)\)"
     alts = pw.alternatives("edges_sorted", rets[0]) if "PHI_edges_sorted" in wt_txt + wd_txt else {"P_edges_sorted"}
     alts_ok = alts is not None and alts <= {"P_edges_sorted", "numpy.sort(P_edges, axis=1)"}
     # the winding verdict, whatever the spelling: evaluate the canonical expression on a finite model - one group of two
